@@ -166,6 +166,10 @@ Op_move_p(st, s, d) == LET fs == st.fs IN
     ELSE [st |-> WithFs(st, Relocate(fs, s, t)), res |-> RAny, alt |-> {st}, partial |-> FALSE, paired |-> TRUE]  \* D5
 
 \* ---- copy (options: mode for dirs / files, follow) ----
+\* The owner of entries created by a copy is not settled by the documentation (the creating user on a real
+\* filesystem, the source's owner in memory): AnyId is a wildcard.  Likewise the mode of missing parents (0).
+AnyId == 2147483647
+CopyOwn == [uid |-> AnyId, gid |-> AnyId]
 \* co = [dm |-> mode or 0 (keep source mode), fm |-> mode or 0, follow |-> BOOLEAN]
 CopyMode(n, opt, type) == IF opt = 0 THEN n.mode ELSE type + Perm(opt)
 CopyOne(fs, own, snap, x, s, t, co) == LET q == Rebase(x, s, t) n == snap[x] IN
@@ -188,10 +192,10 @@ Op_copy_b(st, own, s, d, co) == LET fs == st.fs IN
   ELSE IF co.follow THEN [st |-> st, res |-> RAny, alt |-> {}, partial |-> TRUE, paired |-> FALSE]  \* follow: judged by CopyFollowOK below
   ELSE LET t == IF IsDir(fs, d) THEN Append(d, Base(s)) ELSE d
            pmode == IF co.dm # 0 THEN DirType + Perm(co.dm) ELSE fs[Parent(s)].mode
-           pre == IF Len(t) > 0 THEN MkdirWalk(fs, own, Parent(t), 1, pmode) ELSE [fs |-> fs, e |-> "-"]     \* "creates destination directories as needed"
+           pre == IF Len(t) > 0 THEN MkdirWalk(fs, CopyOwn, Parent(t), 1, 0) ELSE [fs |-> fs, e |-> "-"]     \* "creates destination directories as needed" (mode: wildcard)
        IN IF t = s THEN R(st, ROk(Unit))
           ELSE IF pre.e # "-" THEN [st |-> st, res |-> RErrAny, alt |-> {}, partial |-> TRUE, paired |-> FALSE]
-          ELSE LET r == CopySeq(pre.fs, own, fs, SortByLen(Sub(fs, s)), s, t, co) IN
+          ELSE LET r == CopySeq(pre.fs, CopyOwn, fs, SortByLen(Sub(fs, s)), s, t, co) IN
                IF r.e = "-" THEN R(WithFs(st, r.fs), ROk(Unit))
                ELSE [st |-> WithFs(st, r.fs), res |-> RErrAny, alt |-> {}, partial |-> TRUE, paired |-> FALSE]   \* partial result allowed on Err
 
@@ -268,7 +272,7 @@ Listing(fs, p, what) ==
 
 \* ---- comparison with wildcards: tk = "?" and mode = 0 in an expected node match anything ----
 NodeEq(e, g) == /\ e.k = g.k /\ e.d = g.d /\ e.t = g.t /\ (e.tk = "?" \/ e.tk = g.tk)
-                /\ (e.mode = 0 \/ e.mode = g.mode) /\ e.uid = g.uid /\ e.gid = g.gid
+                /\ (e.mode = 0 \/ e.mode = g.mode) /\ (e.uid = AnyId \/ e.uid = g.uid) /\ (e.gid = AnyId \/ e.gid = g.gid)
 StEq(E, G) == /\ E.cwd = G.cwd /\ DOMAIN E.fs = DOMAIN G.fs /\ \A p \in DOMAIN E.fs : NodeEq(E.fs[p], G.fs[p])
 
 TreeOK(fs) == Root \in DOMAIN fs /\ fs[Root].k = "dir" /\ \A p \in DOMAIN fs \ {Root} : IsDir(fs, Parent(p))
